@@ -867,9 +867,9 @@ func main() {
 		plans = loadReplay(*replay)
 	} else {
 		g := &gen{r: rng.New(*seed)}
-		nRandom, maxRounds := 160, 4
+		nRandom, maxRounds := 300, 4
 		if *tier == "thorough" {
-			nRandom, maxRounds = 1500, 8
+			nRandom, maxRounds = 3000, 8
 		}
 		// witness family: block lengths learned from a probe run
 		probe := exec(g.witness(0, 0, false), tmp)
@@ -959,6 +959,18 @@ func main() {
 		}
 		if died {
 			w.Count("outcome:store-did-not-come-up")
+		} else if len(res.obs) > 0 {
+			last := res.obs[len(res.obs)-1]
+			for _, o := range res.plan.Ops {
+				if o.Kind == "crashin" && len(res.plan.Bulks[o.Bulk]) > 0 {
+					switch f := last.Fetches[res.plan.Bulks[o.Bulk][0].ID]; {
+					case f == "absent":
+						w.Count("interrupted-bulk:finally-absent")
+					case f != "" && !strings.HasPrefix(f, "err:"):
+						w.Count("interrupted-bulk:finally-present")
+					}
+				}
+			}
 		}
 		w.Add(term, res.plan.Class, res.ntriv, res.plan, res.obs)
 	}
